@@ -197,7 +197,14 @@ func search(t *testing.T, e Engine, j *Job, res *Result, start time.Time) {
 	distinct, states, trans := Set64{}, Set64{}, Set64{}
 	seenSig := map[string]bool{}
 	deadline := start.Add(time.Duration(j.BudgetMS) * time.Millisecond)
-	for idx := int64(0); ; idx++ {
+	var crumb *os.File
+	if j.Breadcrumb != "" {
+		crumb, _ = os.OpenFile(j.Breadcrumb, os.O_CREATE|os.O_WRONLY, 0o644)
+	}
+	for idx := j.StartRun; ; idx++ {
+		if crumb != nil {
+			_, _ = crumb.WriteAt([]byte(fmt.Sprintf("%020d\n", idx)), 0)
+		}
 		if j.MaxRuns > 0 && idx >= j.MaxRuns {
 			break
 		}
@@ -376,6 +383,30 @@ func replay(t *testing.T, e Engine, j *Job, res *Result) {
 		return
 	}
 	f := Found{Property: rp.Property, Invariant: rp.Invariant}
+	var rg struct {
+		Regenerate *Regenerate `json:"regenerate"`
+	}
+	if json.Unmarshal(rp.Case, &rg) == nil && rg.Regenerate != nil {
+		// the case is "run number N of that seed": produce it again (a crash of
+		// the code under test then kills this process, which is what the
+		// orchestrator looks for)
+		g := rg.Regenerate
+		j2 := *j
+		j2.Seed, j2.Worker, j2.Workers, j2.Tier, j2.Mode = g.Seed, g.Worker, g.Workers, g.Tier, "search"
+		o := e.Run(t, &j2, NewRNG(g.Seed, uint64(g.Worker), uint64(g.Run)), g.Run, nil)
+		res.Runs++
+		if o.HarnessErr != "" {
+			res.Error = o.HarnessErr
+			return
+		}
+		if gf, ok := match(o, f); ok {
+			res.Reproduced = true
+			res.Violations = append(res.Violations, Violation{Property: gf.Property, Invariant: gf.Invariant, Signature: gf.Signature, Message: gf.Message, Seed: g.Seed, Replay: j.Replay})
+		}
+		res.Notes = append(res.Notes, "regenerated run finished without a crash; trace:")
+		res.Notes = append(res.Notes, clip(o.Trace, 200)...)
+		return
+	}
 	// a case that went through a runtime select coin may need retries
 	for attempt := 0; attempt < 64; attempt++ {
 		o := e.Run(t, j, NewRNG(0), -1, &c)
